@@ -13,12 +13,15 @@ import (
 	"encoding/pem"
 	"flag"
 	"fmt"
+	"google.golang.org/grpc/codes"
 	"io"
 	"math/big"
 	"net"
 	"os"
 	"path/filepath"
 	"strings"
+	"sync"
+	"sync/atomic"
 	"time"
 
 	"github.com/jamf/regatta/regattapb"
@@ -183,6 +186,60 @@ func accessTokens(tr *tracer.T, cases []map[string]any) {
 		cancel()
 		after := content()
 		tr.Emit(map[string]any{"ev": "token", "n": n, "x": x, "code": status.Code(err).String(), "changed": before != after})
+	}
+	// CONCURRENT calls: legitimate callers and callers with wrong tokens OF THE SAME LENGTH hit the protected services
+	// at the same time; not one wrong-token call may get through, not one right-token call may be refused
+	{
+		conn := conns["leader/T"]
+		tc, mc := regattapb.NewTablesClient(conn), regattapb.NewMaintenanceClient(conn)
+		var rightCalls, rightRefused, wrongCalls, accepted atomic.Int64
+		stop := time.Now().Add(1500 * time.Millisecond)
+		var wg sync.WaitGroup
+		call := func(tok string, i int) error {
+			ctx, cancel := context.WithTimeout(metadata.AppendToOutgoingContext(context.Background(), "authorization", "Bearer "+tok), 10*time.Second)
+			defer cancel()
+			if i%3 == 2 {
+				_, err := mc.Reset(ctx, &regattapb.ResetRequest{Table: []byte("no-such-table-for-reset")})
+				if status.Code(err) != codes.Unauthenticated {
+					return nil // got past the token check (whatever Reset then says about the table)
+				}
+				return err
+			}
+			_, err := tc.List(ctx, &regattapb.ListTablesRequest{})
+			return err
+		}
+		for g := 0; g < 8; g++ {
+			wg.Add(2)
+			go func(g int) {
+				defer wg.Done()
+				for i := 0; time.Now().Before(stop); i++ {
+					tok := tablesTok
+					if i%3 == 2 {
+						tok = maintTok
+					}
+					rightCalls.Add(1)
+					if err := call(tok, i); status.Code(err) == codes.Unauthenticated {
+						rightRefused.Add(1)
+					}
+				}
+			}(g)
+			go func(g int) {
+				defer wg.Done()
+				for i := 0; time.Now().Before(stop); i++ {
+					tok := tablesTok
+					if i%3 == 2 {
+						tok = maintTok
+					}
+					wrong := []string{swapCase(tok), tok[:len(tok)-1] + "#", "#" + tok[1:], strings.Repeat("x", len(tok))}[(i+g)%4]
+					wrongCalls.Add(1)
+					if err := call(wrong, i); status.Code(err) != codes.Unauthenticated {
+						accepted.Add(1)
+					}
+				}
+			}(g)
+		}
+		wg.Wait()
+		tr.Emit(map[string]any{"ev": "tokenrace", "right_calls": rightCalls.Load(), "right_refused": rightRefused.Load(), "wrong_calls": wrongCalls.Load(), "accepted": accepted.Load()})
 	}
 }
 
